@@ -5,12 +5,13 @@
    [enc] mirrors encoding/json.Marshal on the shapes the configuration uses (struct fields in order,
    omitempty, nil pointer/slice -> null, json.Marshaler types through their codec); [dec] mirrors
    internal/conf/jsonwrapper.decode (unknown fields rejected, null rejected for slices, pointers, absent
-   fields left at their zero value, json.Unmarshaler types through their codec).
+   fields left at their zero value, null for a struct leaves it at its zero value, an integer token is
+   accepted for a float field, json.Unmarshaler types through their codec).
 
    The scalar codecs are parameters of the section: a codec id [c] comes with
    cenc c : cval -> json, cdec c : json -> option cval, cwf c : cval -> Prop. *)
 From Coq Require Import List ZArith Bool.
-Require Import MTX.Lib.Utf8.
+Require Import MTX.Lib.Utf8 MTX.Model.C08_Scalars.
 Import ListNotations.
 Local Open Scope Z_scope.
 
@@ -22,6 +23,36 @@ Inductive json :=
 | JStr (s : list Z)
 | JArr (l : list json)
 | JObj (m : list (list Z * json)).
+
+(* the text of an integer token / strconv.FormatFloat(float64(z), 'f', -1, 64) for |z| <= 2^53 *)
+Definition ztext (z : Z) : list Z := if z <? 0 then 45 :: C08_Scalars.dec (- z) else C08_Scalars.dec z.
+
+(* equality of JSON trees; a number token that spells an integer is that integer (encoding/json writes
+   the float 1.0 as "1"; the generic parser on the Go side cannot tell) *)
+Fixpoint json_eqb (a b : json) {struct a} : bool :=
+  match a, b with
+  | JNull, JNull => true
+  | JBool x, JBool y => Bool.eqb x y
+  | JInt x, JInt y => x =? y
+  | JFloat x, JFloat y => list_eqb x y
+  | JFloat x, JInt y | JInt y, JFloat x => list_eqb x (ztext y)
+  | JStr x, JStr y => list_eqb x y
+  | JArr x, JArr y =>
+      (fix go (x y : list json) : bool :=
+         match x, y with
+         | [], [] => true
+         | p :: x', q :: y' => json_eqb p q && go x' y'
+         | _, _ => false
+         end) x y
+  | JObj x, JObj y =>
+      (fix go (x : list (list Z * json)) (y : list (list Z * json)) : bool :=
+         match x, y with
+         | [], [] => true
+         | (k, p) :: x', (k', q) :: y' => list_eqb k k' && json_eqb p q && go x' y'
+         | _, _ => false
+         end) x y
+  | _, _ => false
+  end.
 
 Section Schema.
   Variable codec : Type.
@@ -138,7 +169,13 @@ Section Schema.
         | JNull => Some (VInt 0)
         | _ => None
         end
-    | TFloat => match j with JFloat k => Some (VFloat k) | JNull => Some (VFloat [48]) | _ => None end
+    | TFloat =>
+        match j with
+        | JFloat k => Some (VFloat k)
+        | JInt z => Some (VFloat (ztext z))           (* exact for |z| <= 2^53; beyond, float64 rounding is not modelled *)
+        | JNull => Some (VFloat [48])
+        | _ => None
+        end
     | TString => match j with JStr s => Some (VStr s) | JNull => Some (VStr []) | _ => None end
     | TCodec c => option_map VCodec (cdec c j)
     | TList t' =>
@@ -170,15 +207,20 @@ Section Schema.
                         end
                     end) fs)
             else None                                  (* json: unknown field *)
+        | JNull => Some (zero (TStruct fs))            (* json.Unmarshal(null, &rawMap): no entry, no error *)
         | _ => None
         end
     end.
 
-  (* well-formed values of a type (what a decoded, validated configuration holds) *)
-  Fixpoint sorted_keys (m : list (list Z * value)) : Prop :=
+  (* well-formed values of a type (what a decoded, validated configuration holds).
+     Maps: the model's decoder keeps the entries of a JSON object in order and does not merge duplicate
+     keys (Go keeps the last one), its encoder writes the entries in the order of the value (Go sorts):
+     faithful only for values whose keys are distinct [no_dup_keys] and listed in key order.  The four
+     configuration schemas hold no map at all (C08_schema_facts: has_map = false). *)
+  Fixpoint no_dup_keys (m : list (list Z * value)) : Prop :=
     match m with
     | [] => True
-    | (k, _) :: r => ~ In k (map fst r) /\ sorted_keys r
+    | (k, _) :: r => ~ In k (map fst r) /\ no_dup_keys r
     end.
 
   Fixpoint wf (t : ty) (v : value) {struct t} : Prop :=
@@ -192,7 +234,7 @@ Section Schema.
     | TOpt _, VNone => True
     | TOpt t', VSome v' => wf t' v'
     | TMap t', VMap m =>
-        sorted_keys m /\
+        no_dup_keys m /\
         (fix wm (m : list (list Z * value)) : Prop := match m with [] => True | kv :: r => wf t' (snd kv) /\ wm r end) m
     | TStruct fs, VStruct vs =>
         (fix ws (fs : list (list Z * bool * ty)) (vs : list value) : Prop :=
@@ -202,6 +244,33 @@ Section Schema.
            | _, _ => False
            end) fs vs
     | _, _ => False
+    end.
+
+  (* equality of values, given one on codec values (correspondence check only) *)
+  Variable cveqb : cval -> cval -> bool.
+  Fixpoint value_eqb (a b : value) {struct a} : bool :=
+    match a, b with
+    | VBool x, VBool y => Bool.eqb x y
+    | VInt x, VInt y => x =? y
+    | VFloat x, VFloat y | VStr x, VStr y => list_eqb x y
+    | VCodec x, VCodec y => cveqb x y
+    | VNilList, VNilList | VNone, VNone => true
+    | VSome x, VSome y => value_eqb x y
+    | VList x, VList y | VStruct x, VStruct y =>
+        (fix go (x y : list value) : bool :=
+           match x, y with
+           | [], [] => true
+           | p :: x', q :: y' => value_eqb p q && go x' y'
+           | _, _ => false
+           end) x y
+    | VMap x, VMap y =>
+        (fix go (x : list (list Z * value)) (y : list (list Z * value)) : bool :=
+           match x, y with
+           | [], [] => true
+           | (k, p) :: x', (k', q) :: y' => list_eqb k k' && value_eqb p q && go x' y'
+           | _, _ => false
+           end) x y
+    | _, _ => false
     end.
 
   (* conditions on the type itself *)
@@ -225,6 +294,16 @@ Section Schema.
            | [] => true
            | f :: fs' => (negb (snd (fst f)) || is_opt (snd f)) && ty_ok (snd f) && ok fs'
            end) fs
+    end.
+
+  Fixpoint has_map (t : ty) : bool :=
+    match t with
+    | TBool | TInt _ _ | TFloat | TString | TCodec _ => false
+    | TList t' | TOpt t' => has_map t'
+    | TMap _ => true
+    | TStruct fs =>
+        (fix hm (fs : list (list Z * bool * ty)) : bool :=
+           match fs with [] => false | f :: fs' => has_map (snd f) || hm fs' end) fs
     end.
 
   Fixpoint codecs_of (t : ty) : list codec :=
